@@ -228,8 +228,18 @@ pub fn case(seed: u64, st: &mut Stats) {
             if matches!(a.act(), Act::Help | Act::HelpShort | Act::HelpLong | Act::Version) {
                 continue;
             }
-            let marker: Option<String> = if let Some(l) = &a.long { Some(l.clone()) } else if a.takes_values() { a.value_names.first().cloned() } else { None };
+            let marker: Option<String> = if let Some(l) = &a.long {
+                Some(l.clone())
+            } else if a.takes_values() {
+                a.value_names.first().cloned()
+            } else {
+                // a short-only flag: its bold entry `\fB-x\fR` (SYNOPSIS and OPTIONS)
+                a.short.map(|c| format!("\\fB-{}\\fR", c))
+            };
             let Some(m) = marker else { continue };
+            if a.long.is_none() && !a.takes_values() {
+                st.count("arg-checked.short-only");
+            }
             if a.hide {
                 st.count("hidden.arg-checked");
                 if page.contains(&m) {
